@@ -796,6 +796,14 @@ fn abort_error(tcb: &Tcb) -> Option<Error> {
 
 fn abort_with(k: &mut Kernel, fd: Fd, reason: AbortReason) {
     let st = k.lookup_mut(fd).unwrap();
+    // A child still in `SynReceived` is kernel-owned: it sits in no
+    // accept queue and no `TcpStream` will ever close it, so nothing
+    // would reap it later. Drop it from the table right away, along
+    // with its binding and 4-tuple entry.
+    if matches!(&st.tcb, Some(t) if t.state == TcpState::SynReceived) {
+        k.sockets.remove(fd);
+        return;
+    }
     if let Some(tcb) = st.tcb.as_mut() {
         tcb.state = TcpState::Closed;
         match reason {
